@@ -713,11 +713,14 @@ static void agcs_check(const Json& c, Out& o) {
     o.label(kind <= 1 ? "input:complex" : "input:real");
     o.label(a.L == 1 ? "L:1" : a.L < 100 ? "L:2..99" : "L:100..1000");
     o.label(gstar < 0 ? "needed:attenuation" : "needed:amplification");
+    o.label(c.getd("level") < -60 ? "input:below -60 dB" : c.getd("level") < -30 ? "input:-60..-30 dB" : c.getd("level") < 0 ? "input:-30..0 dB" : "input:above 0 dB");
 }
 static void agcs_gen(Ctx& ctx) {
     ctx.rc("random", ctx.by_tier(300000, 3000000), [&]() {
         const double target = pick(0, 3) == 0 ? one_of(std::vector<double>{0.01, 1.0, 100.0}) : std::pow(10.0, pickd(-2, 2));
-        const double level = pickd(-40, 40);   // input amplitude in dB: 80 dB span
+        // input amplitude in dB: 80 dB spans anywhere between -100 and +40 dB (weak inputs that still need less than max_gain included)
+        const int lw = pick(0, 2);
+        const double level = lw == 0 ? pickd(-40, 40) : lw == 1 ? pickd(-100, -20) : pickd(-80, 0);
         const double needed_db = 10 * std::log10(target) - level;
         double mg;
         const int k = pick(0, 3);
